@@ -864,7 +864,7 @@ class dictable(Dict):
         if len(self) == 0:
             return self.copy()
         elif len(by):
-            keys = self[as_tuple(by)] ## sort(['b','a']) is sort('b','a'): the list used to select a sub-table, whose columns come back in alphabetical order
+            keys = self[tuple(sum([as_list(b) for b in by], []))] ## sort(['b','a']) and sort('c', ['b','a']) are sort('b','a') and sort('c','b','a'): a list used to select a sub-table, whose columns come back in alphabetical order
         elif len(byval):
             dicts = {k : dict(zip(vals, range(len(vals)))) for k, vals in byval.items()}
             keys = [[d.get(row[k], len(d)) for k,d in dicts.items()] for row in self]            
